@@ -211,3 +211,327 @@ def run(rep, facts, tier):
                 if P.can_reach(r, (rt, 'term'), avoid_pos=mk):
                     ok = False
         rep.check(ok, 'R08.5', '%s/viewed' % fn, 'records each accessed generation and marks the instances viewed', '%s does not record and mark the accessed generations on every path' % fn, b.where())
+
+    rule_08_6(rep, fx)
+
+
+def rule_08_6(rep, fx):
+    """Instance state machine of DDS 1.4 2.2.2.5.1 as implemented in add_sample, decided exhaustively over (old state, new state) by
+    store-aware evaluation of every path of the `match (old, new)`."""
+    from rdv.sympath import SymPath, lin
+    rep.rule('R08.6', 'instance state machine: in add_sample, for every (old instance state, new state) the generation counters change exactly as DDS 1.4 2.2.2.5.1 says '
+                      '(NotAliveDisposed -> Alive: disposed_generation_count + 1; NotAliveNoWriters -> Alive: no_writers_generation_count + 1; nothing else), the state becomes the new '
+                      'state on every path, Value maps to Alive and Dispose to NotAliveDisposed, a new instance starts at zero counts, and the stored sample carries the counts after the update')
+    b = fx.find('dds::with_key::datasample_cache::DataSampleCache::add_sample')
+    rep.analysed(b)
+    names = b.local_names()
+    inv = {v: k for k, v in names.items()}
+    if 'new_instance_state' not in inv:
+        raise CheckBroken('add_sample: local new_instance_state not found')
+    nis = inv['new_instance_state']
+    STATE = 'dds::sampleinfo::InstanceState'
+    # the switch on the old state and the tuple it inspects
+    sw = []
+    for bb, si, st in b.statements():
+        if st['s'] == 'assign' and st['rv']['r'] == 'discr' and strip_generics(st['rv'].get('ty') or '') == STATE:
+            sw.append((bb, st['rv']['pl']['l']))
+    if not sw:
+        raise CheckBroken('add_sample: no match on InstanceState')
+    first_sw, base_local = sorted(sw)[0]
+    defs = [bb for bb, si, st in b.statements() if st['s'] == 'assign' and st['lhs']['l'] == base_local and not st['lhs'].get('p')]
+    stores = [(bb, si) for bb, si, st in b.statements() if st['s'] == 'assign' and (st['lhs'].get('p') or []) and isinstance(st['lhs']['p'][-1], dict)
+              and st['lhs']['p'][-1].get('n') == 'instance_state' and bb > first_sw]
+    if len(defs) != 1 or len(stores) != 1:
+        raise CheckBroken('add_sample: match operand definition (%d) / instance_state store (%d) not unique' % (len(defs), len(stores)))
+    sp = SymPath(b, fx)
+    tb, tsi = stores[0]
+    table = {}
+    n_paths = 0
+    bad = []
+    for path in sp.paths(defs[0], tb, through_heads=False):
+        n_paths += 1
+        st = sp.run(path, tsi + 1)
+        old = new = None
+        for val, vnames, positive in st.variants:
+            is_new = val == ('init', (('L', nis),))
+            if positive:
+                if is_new:
+                    new = vnames[0] if vnames else None
+                else:
+                    old = vnames[0] if vnames else None
+            elif is_new:
+                new = 'not ' + '/'.join(vnames)
+        incs = []
+        state_store = None
+        for key, o, nw, sbb, ssi in st.stores:
+            f = key[-1][1] if key and key[-1][0] == 'f' else None
+            if f in ('disposed_generation_count', 'no_writers_generation_count'):
+                bo, ko = lin(o)
+                bn, kn = lin(nw)
+                incs.append((f, kn - ko if bo == bn else None))
+            if f == 'instance_state':
+                state_store = nw
+        table.setdefault((old, new), set()).add(tuple(sorted(incs)))
+        if state_store != ('init', (('L', nis),)):
+            bad.append('on the path %s -> %s the state is not set to the new state' % (old, new))
+    want = {}
+    for (old, new), v in table.items():
+        exp = ()
+        if old == 'NotAliveDisposed' and new == 'Alive':
+            exp = (('disposed_generation_count', 1),)
+        if old == 'NotAliveNoWriters' and new == 'Alive':
+            exp = (('no_writers_generation_count', 1),)
+        want[(old, new)] = {exp}
+        if v != {exp}:
+            bad.append('%s -> %s changes the counters by %s, expected %s' % (old, new, sorted(v), list(exp)))
+    # the state store is on every path from the match to the insertion of the sample
+    aggs = [(bb, si) for bb, si, st in b.statements() if st['s'] == 'assign' and st['rv']['r'] == 'agg' and strip_generics(str(st['rv'].get('adt'))).endswith('SampleWithMetaData')]
+    P0 = Pos(b)
+    for a in aggs:
+        if not P0.every_path_passes((defs[0], 0), a, via_pos=[(tb, tsi)]):
+            bad.append('a path from the state match to the insertion of the sample skips `instance_state = new state`')
+    olds = set(o for o, _n in table)
+    if not {'Alive', 'NotAliveDisposed', 'NotAliveNoWriters'} <= olds:
+        bad.append('not every old state is covered: %s' % sorted(str(x) for x in olds))
+    rep.check(not bad and n_paths >= 5, 'R08.6', 'add_sample/transitions', '%d path(s), %d (old, new) cases match DDS 1.4 2.2.2.5.1' % (n_paths, len(table)),
+              'add_sample does not follow the DDS instance state machine: %s' % '; '.join(bad[:3]), b.where(first_sw))
+    # Value -> Alive, Dispose -> NotAliveDisposed
+    og = Origins(b, summaries=False)
+    pair = {}
+    edges = list(switch_edges(b, fx, og))
+    P = Pos(b)
+    for bb, si, st in b.statements():
+        if st['s'] == 'assign' and st['lhs']['l'] == nis and not st['lhs'].get('p') and st['rv']['r'] == 'agg':
+            v = st['rv'].get('variant')
+            for s_, t_, cond, lab in edges:
+                if cond[0] == 'discr' and lab in ('Value', 'Dispose') and (t_ == bb or P.every_path_passes(None, (bb, si), via_edges=[(s_, t_)], from_entry=True)) and \
+                        term_has(cond, lambda x: x == ('param', 2)):
+                    pair[lab] = v
+    rep.check(pair == {'Value': 'Alive', 'Dispose': 'NotAliveDisposed'}, 'R08.6', 'add_sample/new-state', 'Value -> Alive, Dispose -> NotAliveDisposed',
+              'add_sample maps the sample kind to the wrong instance state (%s)' % pair, b.where())
+    # new instance record and stored sample
+    for bb, si, st in b.statements():
+        if st['s'] == 'assign' and st['rv']['r'] == 'agg' and strip_generics(str(st['rv'].get('adt'))).endswith('InstanceMetaData'):
+            f = dict(zip(st['rv']['fields'], [og.of_operand(o, bb, si) for o in st['rv']['ops']]))
+            ok = term_has(f['latest_generation_available'], lambda x: x[0] == 'call' and x[1].endswith('NotAliveGenerationCounts::zero')) and \
+                term_has(f['last_generation_accessed'], lambda x: x[0] == 'call' and x[1].endswith('NotAliveGenerationCounts::sub_zero')) and \
+                term_has(f['instance_state'], lambda x: x[0] == 'agg' and str(x[1]).startswith(STATE))
+            rep.check(ok, 'R08.6', 'add_sample/new-instance', 'new instance: counts zero, never accessed, state = new state',
+                      'a new instance does not start with zero generation counts / never-accessed marker / the new state', b.where(bb, si))
+        if st['s'] == 'assign' and st['rv']['r'] == 'agg' and strip_generics(str(st['rv'].get('adt'))).endswith('SampleWithMetaData'):
+            # evaluated store-aware: generation_counts must be the counters after the update of this path
+            okp = True
+            np_ = 0
+            for path in sp.paths(defs[0], bb, through_heads=False):
+                np_ += 1
+                s2 = sp.run(path, si)
+                v = sp.rvalue(s2, st['rv'], bb)
+                fields = v[4]
+                gc = v[3][fields.index('generation_counts')]
+                read_flag = v[3][fields.index('sample_has_been_read')]
+                # the value read is the record's latest_generation_available with this path's increments applied
+                stored_inc = [(k, nw) for k, o, nw, _b, _s in s2.stores if k and k[-1][0] == 'f' and k[-1][1] in ('disposed_generation_count', 'no_writers_generation_count')]
+                if stored_inc:
+                    okp = okp and gc[0] == 'upd' and all(any(sub[-1] == k[-1] and v == nw for sub, v in gc[2]) for k, nw in stored_inc)
+                else:
+                    okp = okp and gc[0] == 'init'
+                okp = okp and 'latest_generation_available' in str(gc) and read_flag == ('c', 0)
+            rep.check(okp and np_ > 0, 'R08.6', 'add_sample/sample-counts', 'stored sample: generation counts after the update (%d paths), not yet read' % np_,
+                      'the stored sample does not carry the instance\'s generation counts after this sample\'s update, or is stored as already read', b.where(bb, si))
+
+    rule_08_7(rep, fx)
+
+
+def rule_08_7(rep, fx):
+    """KeepLast(depth): after add_sample at most `depth` samples of the instance remain, and the ones dropped are the oldest."""
+    from rdv.poly import poly, freeze, atom
+    rep.rule('R08.7', 'History depth: add_sample keeps KeepLast{depth} -> depth, no History policy -> 1, KeepAll -> no limit (then max_samples_per_instance); when the instance holds more it '
+                      'removes exactly len - keep samples, taken from the front of the instance\'s ascending timestamp set (the oldest), from both the instance index and the sample store, '
+                      'and only under len - keep > 0')
+    b = fx.find('dds::with_key::datasample_cache::DataSampleCache::add_sample')
+    og = Origins(b, summaries=False)
+    P = Pos(b)
+    edges = list(switch_edges(b, fx, og))
+    # (a) the limit
+    ors = [(bb, t) for bb, t in b.calls() if strip_generics(callee_res(t)).endswith('Option::or')]
+    ok_lim = False
+    why = 'no `history limit .or(resource limit)` found'
+    if len(ors) == 1:
+        bb, t = ors[0]
+        h, r = og.of_operand(t['args'][0], bb, 'term'), og.of_operand(t['args'][1], bb, 'term')
+        alts = set()
+        if h[0] == 'phi':
+            for a in h[1]:
+                if a[0] == 'agg' and str(a[1]).endswith('Option::Some') and a[2]:
+                    v = a[2][0]
+                    if v == ('const', 'int', 1):
+                        alts.add('default-1')
+                    elif term_has(v, lambda x: x[0] == 'field' and x[1] == 'depth' and term_has(x, lambda y: y[0] == 'variant' and y[1] == 'KeepLast')):
+                        alts.add('depth')
+                    else:
+                        alts.add('other:' + term_str(v)[:40])
+                elif a[0] == 'agg' and str(a[1]).endswith('Option::None'):
+                    alts.add('none')
+        # which arm produces which alternative: KeepLast edge -> Some(depth), KeepAll edge -> None, None edge -> Some(1)
+        arm = {}
+        for bb2, si2, st2 in b.statements():
+            if st2['s'] == 'assign' and st2['rv']['r'] == 'agg' and str(st2['rv'].get('adt', '')).endswith('option::Option') and b.locals[st2['lhs']['l']].replace(' ', '') in ('std::option::Option<i32>',):
+                for s_, t_, cond, lab in edges:
+                    if cond[0] == 'discr' and term_has(cond, lambda x: x[0] == 'call' and x[1].endswith('::history')) and lab in ('KeepLast', 'KeepAll', 'None') and \
+                            (t_ == bb2 or P.every_path_passes(None, (bb2, si2), via_edges=[(s_, t_)], from_entry=True)):
+                        v = st2['rv'].get('variant')
+                        o = og.of_operand(st2['rv']['ops'][0], bb2, si2) if st2['rv']['ops'] else None
+                        arm[lab] = 'none' if v == 'None' else ('default-1' if o == ('const', 'int', 1) else 'depth' if o and term_has(o, lambda x: x[0] == 'field' and x[1] == 'depth') else 'other')
+        ok_lim = alts == {'default-1', 'depth', 'none'} and arm == {'KeepLast': 'depth', 'KeepAll': 'none', 'None': 'default-1'} and \
+            term_has(r, lambda x: x[0] == 'field' and x[1] == 'max_samples_per_instance')
+        why = 'alternatives %s, arms %s' % (sorted(alts), arm)
+    rep.check(ok_lim, 'R08.7', 'add_sample/limit', 'KeepLast -> depth, none -> 1, KeepAll -> none; then max_samples_per_instance',
+              'the number of samples kept per instance is not History depth (default 1, KeepAll unlimited) falling back to max_samples_per_instance: %s' % why, b.where())
+    # (b) how many and which
+    takes = [(bb, t) for bb, t in b.calls() if strip_generics(callee_res(t)).endswith('Iterator::take')]
+    ok_take = False
+    why = 'no take()'
+    if len(takes) == 1 and ors:
+        bb, t = takes[0]
+        src, cnt = og.of_operand(t['args'][0], bb, 'term'), og.of_operand(t['args'][1], bb, 'term')
+        from_front = src[0] == 'call' and src[1].endswith('BTreeSet::iter') and term_has(src, lambda x: x[0] == 'field' and x[1] == 'instance_samples')
+        pc = poly(cnt)
+        # len(instance_samples) - keep, keep = payload of the Some edge of the or()
+        lens = [a for m in pc for a in m if a[0] == 'call' and a[1].endswith('::len')]
+        keep = [a for m, c in pc.items() if c == -1 for a in m]
+        ok_cnt = len(pc) == 2 and len(lens) == 1 and 'instance_samples' in str(lens[0]) and len(keep) == 1 and 'Option::or' in str(keep[0]) and sorted(pc.values()) == [-1, 1]
+        guard = [(s_, t_) for s_, t_, cond, lab in edges if lab is True and cond[0] == 'bin' and cond[1] == 'Gt' and cond[3] == ('const', 'int', 0) and freeze(poly(cond[2])) == freeze(pc)]
+        ok_guard = bool(guard) and P.every_path_passes(None, (bb, 'term'), via_edges=guard, from_entry=True)
+        ok_take = from_front and ok_cnt and ok_guard
+        why = 'from the front of instance_samples: %s; count = len - keep: %s; under count > 0: %s' % (from_front, ok_cnt, ok_guard)
+    rep.check(ok_take, 'R08.7', 'add_sample/evict-oldest', 'removes the first len - keep timestamps of the instance, only if positive',
+              'eviction does not remove exactly the len - keep oldest samples of the instance (%s)' % why, b.where())
+    # (c) both stores
+    rm = {}
+    for bb, t in b.calls():
+        r = strip_generics(callee_res(t))
+        if r.endswith(('BTreeSet::remove', 'BTreeMap::remove')):
+            tgt = og.of_operand(t['args'][0], bb, 'term')
+            k = og.of_operand(t['args'][1], bb, 'term')
+            from_take = term_has(k, lambda x: x[0] == 'call' and x[1].endswith('Iterator::take'))
+            if term_has(tgt, lambda x: x[0] == 'field' and x[1] == 'instance_samples'):
+                rm['instance_samples'] = from_take
+            if term_has(tgt, lambda x: x[0] == 'field' and x[1] == 'datasamples'):
+                rm['datasamples'] = from_take
+    rep.check(rm == {'instance_samples': True, 'datasamples': True}, 'R08.7', 'add_sample/evict-both', 'each evicted timestamp is removed from the instance index and from the sample store',
+              'an evicted sample is not removed from both the instance index and the sample store (%s): it stays available, or stays counted' % rm, b.where())
+
+    rule_08_8(rep, fx)
+
+
+def rule_08_8(rep, fx):
+    """A read condition selects exactly the matching samples: sample_selector, path by path, against the reference formula; and the states it tests are the
+    states make_sample_info reports."""
+    from rdv.sympath import SymPath
+    rep.rule('R08.8', 'read condition: on every path of sample_selector the result equals (sample mask is any OR contains(Read if the sample was read else NotRead)) AND (view mask is any OR '
+                      'contains(New if sample generation total > last accessed total else NotNew)) AND (instance mask is any OR contains(the instance\'s state)); make_sample_info reports '
+                      'sample and view state by the same two tests')
+    b = fx.find('dds::with_key::datasample_cache::DataSampleCache::sample_selector')
+    rep.analysed(b)
+    sp = SymPath(b, fx)
+    rets = b.return_blocks()
+    if len(rets) != 1:
+        raise CheckBroken('sample_selector: %d return blocks' % len(rets))
+
+    def has_call(t, suffix):
+        return suffix in str(t)
+
+    def which_mask(t):
+        s = str(t)
+        for k, nm in (('s', 'sample_state_mask'), ('v', 'view_state_mask'), ('i', 'instance_state_mask')):
+            if nm in s:
+                return k
+        return None
+    bad = []
+    n_paths = 0
+    for path in sp.paths(0, rets[0]):
+        n_paths += 1
+        st = sp.run(path, 'term')
+        ret = sp.read_key(st, (('L', 0),))
+        A = {}
+        r = g = None
+        for _tag, bb, x, taken in st.trace:
+            truth = not (taken == [0]) if isinstance(taken, list) else True      # bool switch: arm 0 = false, otherwise = true
+            if x[0] == 'call' and x[1].endswith('::eq') and len(x[2]) == 2 and 'any' in str(x[2][1]):
+                k = which_mask(x[2][0])
+                if k:
+                    A['e' + k] = truth
+            elif x[0] == 'call' and x[1].endswith('::contains') and len(x[2]) == 2:
+                k = which_mask(x[2][0])
+                arg = x[2][1]
+                if k == 's':
+                    want = 'Read' if r else 'NotRead'
+                    if not (arg[0] == 'agg' and arg[2] == want) or r is None:
+                        bad.append('sample-state test uses %s where the sample is %s' % (arg[2] if arg[0] == 'agg' else str(arg)[:40], 'read' if r else 'not read'))
+                if k == 'v':
+                    want = 'New' if g else 'NotNew'
+                    if not (arg[0] == 'agg' and arg[2] == want) or g is None:
+                        bad.append('view-state test uses %s where the sample is %s' % (arg[2] if arg[0] == 'agg' else str(arg)[:40], 'new' if g else 'not new'))
+                if k:
+                    A['c' + k] = truth
+            elif x[0] == 'init' and x[1] and x[1][-1] == ('f', 'sample_has_been_read'):
+                r = truth
+            elif x[0] == 'bin' and x[1] in ('Gt', 'Lt'):
+                a_, b_ = (x[2], x[3]) if x[1] == 'Gt' else (x[3], x[2])
+                okg = 'total' in str(a_) and 'generation_counts' in str(a_) and 'total' in str(b_) and 'last_generation_accessed' in str(b_)
+                if not okg:
+                    bad.append('the "new" test does not compare the sample\'s generation total with the instance\'s last accessed total')
+                g = truth
+        # the returned value
+        if ret == ('c', 1):
+            rv = True
+        elif ret == ('c', 0):
+            rv = False
+        elif ret[0] == 'call' and ret[1].endswith('::contains') and which_mask(ret[2][0]) == 'i':
+            rv = 'ci'
+            if 'instance_state' not in str(ret[2][1]):
+                bad.append('instance-state test does not use the instance\'s state')
+        else:
+            rv = 'other'
+        conj = []
+        for k in ('s', 'v', 'i'):
+            e = A.get('e' + k)
+            if e is True:
+                conj.append(True)
+            elif e is False:
+                c = A.get('c' + k)
+                conj.append(c if c is not None else ('c' + k))
+            else:
+                conj.append(None)
+        if any(c is False for c in conj):
+            ref = False
+        elif all(c is True for c in conj):
+            ref = True
+        elif conj[:2] == [True, True] and conj[2] == 'ci':
+            ref = 'ci'
+        else:
+            ref = 'undetermined'
+        if ref != rv:
+            bad.append('a path returns %s where the formula gives %s (decisions %s)' % (rv, ref, sorted(A.items())))
+    rep.check(not bad and n_paths >= 8, 'R08.8', 'sample_selector/formula', '%d paths agree with the reference formula' % n_paths,
+              'sample_selector does not select exactly the samples matching the read condition: %s' % '; '.join(sorted(set(bad))[:3]), b.where())
+    # make_sample_info reports by the same tests
+    m = fx.find('dds::with_key::datasample_cache::DataSampleCache::make_sample_info')
+    rep.analysed(m)
+    og = Origins(m, summaries=False)
+    P = Pos(m)
+    edges = list(switch_edges(m, fx, og))
+    okm = {}
+    for bb, si, st in m.statements():
+        if st['s'] == 'assign' and st['rv']['r'] == 'agg' and strip_generics(str(st['rv'].get('adt'))) in ('dds::sampleinfo::SampleState', 'dds::sampleinfo::ViewState'):
+            v = st['rv'].get('variant')
+            for s_, t_, cond, lab in edges:
+                if lab not in (True, False) or not (t_ == bb or P.every_path_passes(None, (bb, si), via_edges=[(s_, t_)], from_entry=True)):
+                    continue
+                if cond[0] == 'field' and cond[1] == 'sample_has_been_read':
+                    okm[v] = (lab, 'read')
+                if cond[0] == 'bin' and cond[1] == 'Gt' and 'generation_counts' in term_str(cond[2]) and 'last_generation_accessed' in term_str(cond[3]):
+                    okm[v] = (lab, 'new')
+    want = {'Read': (True, 'read'), 'NotRead': (False, 'read'), 'New': (True, 'new'), 'NotNew': (False, 'new')}
+    rep.check(okm == want, 'R08.8', 'make_sample_info/states', 'Read/NotRead by sample_has_been_read, New/NotNew by generation total > last accessed total',
+              'make_sample_info reports sample / view state by other tests than the selector uses (%s)' % okm, m.where())
